@@ -128,7 +128,7 @@ def main():
 
 
 SOURCE_COMMITS = ["5d3c2c3", "6e4f46b"]
-FIX_COMMITS = ["84b773b", "5ef812d", "4fe1bb6", "c7c2170", "91550fd", "d50e1da", "211358d", "62eaea4", "d4d302d"]
+FIX_COMMITS = ["84b773b", "5ef812d", "4fe1bb6", "c7c2170", "91550fd", "d50e1da", "211358d", "62eaea4", "d4d302d", "289a975", "f673a29"]
 NA = {}
 
 if __name__ == "__main__":
